@@ -53,26 +53,26 @@ def value_for(pname, variant=0):
     """lattice value by parameter-name pattern; variant 0/1 give two distinct interior points"""
     v = variant
     if pname == 's':
-        return [0.3, 0.6][v]
+        return [0.3, 0.6, 0.1, 0.9, 0.5, 0.75][v]
     if pname == 'f':
-        return [0.25, 0.6][v]
+        return [0.25, 0.6, 0.05, 0.95, 0.5, 0.8][v]
     if pname == 'F':
-        return [0.2, 0.5][v]
+        return [0.2, 0.5, 0.05, 0.8, 0.35, 0.65][v]
     if pname.startswith('gamma'):
-        base = [-2.0, 1.0][v]
+        base = [-2.0, 1.0, -8.0, 4.0, -0.5, 10.0][v]
         return base * (1.5 if pname.endswith('2') else 1.0)
     if pname.startswith('nu'):
         table = {'nu1': 0.7, 'nu2': 2.0, 'nu3': 1.3, 'nuA': 0.9, 'nuB': 0.4, 'nuF': 3.0, 'nu': 2.5, 'nuPre': 1.8, 'nu1a': 0.6, 'nu2a': 1.7, 'nu3a': 1.2,
                  'nu1b': 2.2, 'nu2b': 0.8, 'nu3b': 0.5, 'nuAf': 1.5, 'nuEu0': 0.3, 'nuEu': 2.0, 'nuAs0': 0.4, 'nuAs': 2.6}
-        return table.get(pname, 1.1) * [1.0, 1.4][v]
+        return table.get(pname, 1.1) * [1.0, 1.4, 0.5, 3.0, 0.25, 6.0][v]
     if pname.startswith('m'):
         table = {'m': 1.0, 'm12': 0.8, 'm21': 1.7, 'mA': 0.6, 'm1': 1.2, 'm2': 0.5, 'm3': 1.6, 'm12a': 0.7, 'm21a': 1.4, 'm12b': 0.3, 'm21b': 1.9, 'm32': 0.9, 'm31': 0.4,
                  'mAfB': 0.5, 'mAfEu': 0.3, 'mAfAs': 0.2, 'mEuAs': 0.9}
-        return table.get(pname, 1.0) * [1.0, 0.5][v]
+        return table.get(pname, 1.0) * [1.0, 0.5, 2.5, 0.1, 4.0, 0.0][v]
     if pname.startswith('T'):
         table = {'T': 0.12, 'T1': 0.1, 'T2': 0.07, 'T3': 0.05, 'TB': 0.08, 'TF': 0.11, 'Ts': 0.2, 'Tpre': 0.09, 'Tmig': 0.06, 'TPre': 0.1, 'T1a': 0.05, 'T1b': 0.06,
                  'TAf': 0.1, 'TEuAs': 0.05}
-        return table.get(pname, 0.1) * [1.0, 1.6][v]
+        return table.get(pname, 0.1) * [1.0, 1.6, 0.4, 2.5, 0.15, 3.5][v]
     return 1.0
 
 
@@ -136,7 +136,7 @@ def case_model(col, p):
             pass
         col.tick(transitions=1)
     # (2) well-formedness on the lattice: both interior points, plus each parameter in turn at its corner values
-    points = [dict(zip(names, default_params(names, v))) for v in (0, 1)]
+    points = [dict(zip(names, default_params(names, v))) for v in p.get('variants', (0, 1))]
     for i, pn in enumerate(names):
         corners = []
         if pn.startswith('T'):
@@ -466,7 +466,7 @@ def case_edge(col, p):
     na, nb = list(fa.__param_names__), list(fb.__param_names__)
     d = p['npop']
     n = 0
-    for v in (0, 1):
+    for v in p.get('variants', (0, 1)):
         L = lattice_point(v)
         qa, qb = pa(L), pb(L)
         if set(qa) != set(na) or set(qb) != set(nb):
@@ -516,17 +516,18 @@ def run(ctx):
     for name, (f, modname) in cat.items():
         npops[name] = npop_of(name, f)
     cases = []
+    variants = [0, 1] if ctx.quick else [0, 1, 2, 3, 4, 5]
     for name in sorted(cat):
         if npops[name] is None:
             ctx.violation('C15:%s:cannot_be_evaluated' % name, {'model': name}, 'no sample-size signature worked')
             continue
-        cases.append({'kind': 'model', 'model': name, 'npop': npops[name]})
+        cases.append({'kind': 'model', 'model': name, 'npop': npops[name], 'variants': variants})
     edges = EDGES()
     for i, (A, B, pa, pb, cls) in enumerate(edges):
         d = npops.get(A)
         if d is None:
             continue
-        cases.append({'kind': 'edge', 'edge': i, 'npop': d})
+        cases.append({'kind': 'edge', 'edge': i, 'npop': d, 'variants': variants})
     ctx.note('catalogue: %d models (%s); explicit nesting edges: %d' % (len(cat), ', '.join('%dD:%d' % (d, sum(1 for v in npops.values() if v == d)) for d in (1, 2, 3)), len(edges)))
     cases.sort(key=lambda c: -c['npop'])
     explore.pmap(ctx, _dispatch, cases, chunk=1)
@@ -534,5 +535,5 @@ def run(ctx):
     for c in (cases[0], cases[len(cases) // 2], cases[-1]):
         ctx.sample(c)
     ctx.rule = ('every model of the catalogue x (arity, parameter lattice with per-parameter corners, zero-length epochs, name-derived nesting rules, label swap) and '
-                'every edge of the explicit nesting graph x 2 lattice points. distinct_nontrivial = distinct models / edges evaluated')
+                'every edge of the explicit nesting graph x 2 (quick) / 6 (thorough) lattice points. distinct_nontrivial = distinct models / edges evaluated')
     ctx.assume('grids are coarse (identities hold at any grid); "~" edges and label swaps are exact only up to operator splitting and are decided on a time-step ladder')
